@@ -39,6 +39,8 @@ func ResolveURLPath(baseURL, pathOrURL string) string {
 
 	// Use path.Join to preserve the base path prefix when joining with relative paths
 	// and to normalise redundant slashes
-	base.Path = path.Join(base.Path, pathOrURL)
+	// the relative path is cleaned on its own first, so that dot segments in it ("../health")
+	// cannot climb out of the base path
+	base.Path = path.Join(base.Path, path.Clean("/"+pathOrURL))
 	return base.String()
 }
